@@ -569,6 +569,7 @@ var opaqueDyn types.Type = types.NewNamed(types.NewTypeName(token.NoPos, nil, "o
 // default concurrency stubs: recorded as events; overridden by property drivers.
 func (e *Engine) goStmt(st *State, fr *frame, fn Value, args []Value) {
 	st.events = append(st.events, Event{Tag: "go", Args: append([]Value{fn}, args...)})
+	st.pendingGo = append(st.pendingGo, pendingGo{fn: fn, args: args})
 	if h := e.Hooks["@go"]; h != nil {
 		h(st, append([]Value{fn}, args...))
 	}
